@@ -1,25 +1,174 @@
-"""C20 - RTMP timestamps as a wrap-around clock (DESIGN.md section 5, C20)."""
-import re
+"""C20 - RTMP timestamps as a wrap-around clock (DESIGN.md section 5, C20).
+
+The functions of time.rs touch their two u32 inputs only through comparisons, differences and wrapping sums.  Their behaviour is
+therefore decided on a finite partition of u32 x u32: the order of the two values (a < b, a = b, a > b) times the class of their
+distance (1 .. 2^31-1, exactly 2^31, 2^31+1 .. 2^32-1).  Each cell is a conjunction of difference constraints; the abstract
+interpreter is started with the cell as entry assumption, every path of the function under test is replayed with all local
+callees followed in place, and the set of results the cell allows is read off.  No input is ever enumerated or executed."""
 from .common import *
-from . import chunk
 from .. import grammar
-from ..grammar import fmt_tok
+from ..absint import State, set_ty, const_val, is_const, sv_type
+from ..interp import stable
+from . import facts
+
+H = 2 ** 31
+W = 2 ** 32
+CELLS = [("lt", "near"), ("lt", "anti"), ("lt", "far"), ("eq", None), ("gt", "near"), ("gt", "anti"), ("gt", "far")]
+ORD_NAMES = {0: "Less", 1: "Equal", 2: "Greater"}
+
+
+def cell_state(a, b, rel, dist):
+    E = State()
+    if rel == "eq":
+        E.add_le(a, b, 0)
+        E.add_le(b, a, 0)
+        return E
+    lo, hi = (a, b) if rel == "lt" else (b, a)      # hi - lo = the distance >= 1
+    if dist == "near":
+        E.add_le(lo, hi, -1)
+        E.add_le(hi, lo, H - 1)
+    elif dist == "anti":
+        E.add_le(hi, lo, H)
+        E.add_le(lo, hi, -H)
+    else:
+        E.add_le(lo, hi, -(H + 1))
+    return E
+
+
+def expected_order(rel, dist):
+    """compare(a, b): a is later than b exactly when a is 1 .. 2^31-1 ahead of b modulo 2^32"""
+    if rel == "eq":
+        return 1
+    if dist == "anti":
+        return None
+    if rel == "lt":
+        return 0 if dist == "near" else 2
+    return 2 if dist == "near" else 0
+
+
+def operand_values(it, body):
+    """the two u32 values a function of time.rs works on: a parameter that is a u32 / &u32 / RtmpTimestamp / &RtmpTimestamp"""
+    out = []
+    for i in range(1, body.arg_count + 1):
+        t = body.locals[i]["t"]
+        ref = False
+        while t.get("k") == "ref":
+            t = t["to"]
+            ref = True
+        p = State().read((it.L(i), ()))
+        if t.get("k") == "uint" and t.get("s") == "u32":
+            v = State().read((("P", p), ())) if ref else p
+        elif t.get("k") == "adt" and t.get("s", "").endswith("RtmpTimestamp"):
+            v = State().read((("P", p), (("f", 0, "value"),))) if ref else State().read((it.L(i), (("f", 0, "value"),)))
+        else:
+            continue
+        set_ty(v, "u32")
+        out.append(v)
+    return out
+
+
+def results_in_cell(env, body, E):
+    """set of values the function can return when started in the cell (all local callees followed in place)"""
+    ex = grammar.Extractor(env, body.key, "r", entry=E, max_paths=400)
+    ex.inline = True
+    ex.inline_depth = 6
+    ex.inline_blocks = 120
+    ex.inline_pred = lambda cb, t: True
+    ex.probe = lambda it, S: S.read((it.L(0), ()))
+    ex.run()
+    vals = set()
+    for p in ex.paths:
+        if p and p[-1][0] == "end" and p[-1][1] == "diverge":
+            vals.add(("diverges",))
+            continue
+        pr = [t for t in p if t[0] == "probe"]
+        if pr:
+            vals.add(pr[-1][1])
+    return vals, ex.truncated
+
+
+def unwrap(v):
+    while isinstance(v, tuple) and v[0] == "upd":
+        v = v[1]
+    return v
+
+
+def as_ordering(v):
+    """variant index of an Ordering / Option<Ordering> constant, else None"""
+    v = unwrap(v)
+    if isinstance(v, tuple) and v[0] == "agg" and v[1] == "core::option::Option":
+        if v[2] != 1:
+            return "None"
+        v = unwrap(v[3][0])
+    if isinstance(v, tuple) and v[0] == "agg" and v[1] == "core::cmp::Ordering":
+        return v[2]
+    return None
+
+
+def lin(S, sv, depth=0):
+    """sv as (coefficients over opaque values, constant) when that is exact in state S; wrapping operations are resolved
+    when the state determines how often they wrap"""
+    c = const_val(sv)
+    if isinstance(c, bool):
+        c = 1 if c else 0
+    if isinstance(c, int):
+        return ({}, c)
+    if not isinstance(sv, tuple) or depth > 8:
+        return ({sv: 1}, 0)
+    if sv[0] == "cast":
+        d = S.dom(sv[2])
+        from ..absint import dom_of_type
+        tr = dom_of_type(sv[1])
+        if d.lo >= tr.lo and d.hi <= tr.hi:
+            return lin(S, sv[2], depth + 1)
+        return ({sv: 1}, 0)
+    if sv[0] == "bin" and sv[1] in ("Add", "Sub", "AddW", "SubW"):
+        op, ty, a, b = sv[1], sv[2], sv[3], sv[4]
+        la, lb = lin(S, a, depth + 1), lin(S, b, depth + 1)
+        sign = 1 if op.startswith("Add") else -1
+        co = dict(la[0])
+        for k, v in lb[0].items():
+            co[k] = co.get(k, 0) + sign * v
+        co = {k: v for k, v in co.items() if v != 0}
+        k0 = la[1] + sign * lb[1]
+        if not op.endswith("W"):
+            return (co, k0)
+        # number of wraps: from the interval of the exact result
+        exact = S.dom(("bin", op[:-1], "i128", a, b))
+        from ..absint import dom_of_type
+        tr = dom_of_type(ty)
+        width = tr.hi - tr.lo + 1
+        if exact.lo == -float("inf") or exact.hi == float("inf"):
+            return ({canon_wrap(sv): 1}, 0)
+        q1, q2 = (exact.lo - tr.lo) // width, (exact.hi - tr.lo) // width
+        if q1 != q2:
+            return ({canon_wrap(sv): 1}, 0)
+        return (co, k0 - q1 * width)
+    return ({sv: 1}, 0)
+
+
+def canon_wrap(sv):
+    if sv[1] == "AddW" and repr(sv[4]) < repr(sv[3]):
+        return ("bin", "AddW", sv[2], sv[4], sv[3])
+    return sv
 
 
 def run(env, rep):
     prog = env.prog
     rep.explanation = (
-        "R1: the Add / Sub implementations of RtmpTimestamp (both right-hand types) contain no undischarged checked-arithmetic "
-        "site on any path (they wrap); R2: Ord, PartialOrd<Self>, PartialOrd<u32> and PartialOrd<RtmpTimestamp> for u32 all return "
-        "the result of the one comparison function, called with (left value, right value) in that order, and the two PartialEq "
-        "directions compare exactly the two values; R3: inside the comparison function the branch between natural and reversed "
-        "order partitions the absolute difference into [0, 2^31-1] | [2^31, 2^32-1] (computed from the guarding comparison, "
-        "insensitive to <= C versus < C+1), the natural branch returns cmp(a, b) and the reversed branch cmp(b, a).  Not decided: "
-        "the arithmetic identities and the order relation over u32 x u32 (including the antipodal distance 2^31).")
-    ts = None
-    for k, a in prog.adts.items():
-        if a["pretty"] == "time::RtmpTimestamp":
-            ts = k
+        "The functions of time.rs are decided on a finite partition of u32 x u32 - order of the two values (a < b, a = b, a > b) "
+        "times distance class (1..2^31-1, exactly 2^31, 2^31+1..2^32-1) - by starting the abstract interpreter with each cell as "
+        "entry assumption and replaying every path with all local callees followed in place (no input is enumerated or run): "
+        "R1 the Add / Sub implementations have no undischarged checked-arithmetic site, and in every cell their result is the sum / "
+        "difference of the two values modulo 2^32 (linear normal form, wrap count resolved by the cell); R2 Ord, PartialOrd<Self>, "
+        "PartialOrd<u32> and PartialOrd<RtmpTimestamp> for u32 return, in every cell, exactly one result, the same for all of "
+        "them: Equal iff a = b, 'a later' iff a is 1..2^31-1 ahead of b modulo 2^32; at distance exactly 2^31 any answer is "
+        "accepted as long as compare(a, b) and compare(b, a) are opposite (antisymmetry); the PartialEq impls between RtmpTimestamp "
+        "and u32 return true exactly in the cell a = b; R3 (same evaluation) the boundary between natural and reversed order lies "
+        "between distance 2^31-1 and 2^31+1 - a threshold off by one makes a cell yield two results.  Not decided: nothing of the "
+        "ordering / arithmetic clauses beyond the trusted models of the integer operations; inverse-ness of + and - follows from "
+        "both being exact modulo 2^32.")
+    ts_key, ts = facts.adt_by_pretty(prog, "time::RtmpTimestamp")
     if ts is None:
         rep.anchor_missing("C20.R1", "struct time::RtmpTimestamp")
         return
@@ -30,71 +179,105 @@ def run(env, rep):
         tr = b.impl.get("trait_ref") or ""
         if "RtmpTimestamp" in tr or b.impl["self_ty"].endswith("RtmpTimestamp"):
             impls.setdefault(b.impl["trait"].split("::")[-1], []).append(b)
-    # ------------------------------------------------------------------ R1
+    # ------------------------------------------------------------------ R1 arithmetic
     arith = [b for t in ("Add", "Sub") for b in impls.get(t, []) if not is_derived(b)]
     rep.floor("C20.R1.impls", "Add / Sub implementations of RtmpTimestamp", len(arith), 4)
-    bodies, n = panic_sites(env, rep, "C20.R1", [b.key for b in arith], "time arithmetic")
-    # the results must be the wrapping sum / difference of the two values
+    panic_sites(env, rep, "C20.R1", [b.key for b in arith], "time arithmetic")
+    from .. import interp as I
     for b in arith:
-        exp = "AddW" if b.impl["trait"].endswith("Add") else "SubW"
-        rets = [t[1] for p in grammar.reads(env, b.key).paths for t in p if t[0] == "returns"]
-        ok = len(rets) == 1 and re.match(r"^RtmpTimestamp\(\(load\(self\.value\) %s load\(other(\.value)?\)\)\)$" % exp, rets[0]) is not None
-        rep.check("C20.R1", "%s|wrapping-result" % b.pretty, ok, "returns RtmpTimestamp(self.value %s other)" % exp,
-                  "%s returns %s; expected the wrapping %s of the two values" % (b.pretty, rets, "sum" if exp == "AddW" else "difference"), b.span)
-    # ------------------------------------------------------------------ R2
-    cmpf = body_by_pretty(prog, "time::compare")
-    if cmpf is None:
-        rep.anchor_missing("C20.R2", "time::compare (the single comparison function)")
-        return
-    rep.fn(cmpf.key)
-    n2 = 0
-    for tname, wrap in (("Ord", False), ("PartialOrd", True)):
-        for b in impls.get(tname, []):
-            if is_derived(b) or b.name not in ("cmp", "partial_cmp"):
+        rep.fn(b.key)
+        it = env.ctx.interp(b.key)
+        I.CUR_BODY[0] = b
+        ops = operand_values(it, b)
+        if len(ops) != 2:
+            rep.cannot_analyse("C20.R1", "%s|operands" % b.pretty, "%s does not take two timestamp / u32 values" % b.pretty, b.span)
+            continue
+        a, c = ops
+        opn = "AddW" if b.impl["trait"].endswith("Add") else "SubW"
+        want = ("bin", opn, "u32", a, c)
+        bad = []
+        for rel in ("lt", "eq", "gt"):
+            E = State()
+            if rel == "lt":
+                E.add_le(a, c, -1)
+            elif rel == "eq":
+                E.add_le(a, c, 0)
+                E.add_le(c, a, 0)
+            else:
+                E.add_le(c, a, -1)
+            vals, trunc = results_in_cell(env, b, E)
+            if trunc or not vals:
+                bad.append("%s: cannot enumerate the paths" % rel)
                 continue
-            rep.fn(b.key)
-            n2 += 1
-            paths = grammar.reads(env, b.key, all_local_calls=True).paths
-            calls = [t for p in paths for t in p if t[0] == "call" and t[1] == "time::compare"]
-            rets = [t[1] for p in paths for t in p if t[0] == "returns"]
-            left_is_ts = b.impl["self_ty"].endswith("RtmpTimestamp")
-            tr = b.impl.get("trait_ref") or ""
-            right_is_ts = ("PartialOrd<u32>" not in tr) if left_is_ts else True
-            a_want = r"&\*?load\(self\)\.value" if left_is_ts else r"(&\*?load\(self\)|load\(self\))"
-            b_want = r"&\*?load\(other\)\.value" if right_is_ts else r"(&\*?load\(other\)|load\(other\))"
-            okc = len(calls) == 1 and len(calls[0][2]) == 2 and re.match("^" + a_want + "$", calls[0][2][0]) and re.match("^" + b_want + "$", calls[0][2][1])
-            okr = len(rets) == 1 and rets[0] in ("call(time::compare)", "Some(call(time::compare))")
-            rep.check("C20.R2", "%s|uses-compare" % b.pretty, bool(okc and okr), "returns compare(left value, right value)",
-                      "%s calls %s and returns %s; expected the result of compare(left value, right value)" % (
-                          b.pretty, [(c[1], c[2]) for c in calls] or "no comparison function", rets), b.span)
-    rep.floor("C20.R2", "ordering implementations involving RtmpTimestamp", n2, 4)
+            for v in vals:
+                v = unwrap(v)
+                if not (isinstance(v, tuple) and v[0] == "agg" and isinstance(v[1], str) and v[1].endswith("RtmpTimestamp") and v[3]):
+                    bad.append("%s: returns %s" % (rel, stable(v)[:80]))
+                    continue
+                got = v[3][0]
+                if lin(E, got) != lin(E, want):
+                    bad.append("for a %s b the result is %s, not (a %s b) mod 2^32" % ({"lt": "<", "eq": "=", "gt": ">"}[rel], stable(got)[:100], "+" if opn == "AddW" else "-"))
+        rep.check("C20.R1", "%s|exact-mod-2^32" % b.pretty, not bad, "returns the %s of the two values modulo 2^32 in every cell" % ("sum" if opn == "AddW" else "difference"),
+                  "%s: %s" % (b.pretty, "; ".join(sorted(set(bad)))), b.span)
+    # ------------------------------------------------------------------ R2 / R3 ordering
+    orderings = [b for tname in ("Ord", "PartialOrd") for b in impls.get(tname, []) if not is_derived(b) and b.name in ("cmp", "partial_cmp")]
+    rep.floor("C20.R2", "ordering implementations involving RtmpTimestamp", len(orderings), 4)
+    table = {}
+    for b in orderings:
+        rep.fn(b.key)
+        it = env.ctx.interp(b.key)
+        I.CUR_BODY[0] = b
+        ops = operand_values(it, b)
+        if len(ops) != 2:
+            rep.cannot_analyse("C20.R2", "%s|operands" % b.pretty, "%s does not compare two timestamp / u32 values" % b.pretty, b.span)
+            continue
+        a, c = ops
+        bad = []
+        row = {}
+        for rel, dist in CELLS:
+            vals, trunc = results_in_cell(env, b, cell_state(a, c, rel, dist))
+            got = {as_ordering(v) for v in vals}
+            cell = "a %s b%s" % ({"lt": "<", "eq": "=", "gt": ">"}[rel], {"near": ", distance 1..2^31-1", "anti": ", distance exactly 2^31", "far": ", distance 2^31+1..2^32-1", None: ""}[dist])
+            if trunc or not vals or None in got or "None" in got or len(got) != 1:
+                bad.append("%s: the result is not determined by the cell (%s) - a comparison threshold cuts through it or the result is not a comparison of the two values" % (
+                    cell, sorted(ORD_NAMES.get(g, str(g)) if g is not None else "an undetermined value" for g in got) or "no result"))
+                continue
+            g = next(iter(got))
+            row[(rel, dist)] = g
+            want = expected_order(rel, dist)
+            if want is not None and g != want:
+                bad.append("%s: returns %s, the wrap-around order requires %s" % (cell, ORD_NAMES[g], ORD_NAMES[want]))
+        if ("lt", "anti") in row and ("gt", "anti") in row:
+            if not (row[("lt", "anti")] in (0, 2) and row[("gt", "anti")] == 2 - row[("lt", "anti")]):
+                bad.append("at distance exactly 2^31: compare(a, b) = %s and compare(b, a) = %s are not opposite (antisymmetry)" % (
+                    ORD_NAMES[row[("lt", "anti")]], ORD_NAMES[row[("gt", "anti")]]))
+        table[b.pretty] = row
+        rep.check("C20.R2", "%s|order-by-cell" % b.pretty, not bad, "Equal iff a = b; later iff 1..2^31-1 ahead modulo 2^32; opposite answers at distance 2^31 (%d cells)" % len(CELLS),
+                  "%s: %s" % (b.pretty, "; ".join(bad)), b.span)
+    rows = {tuple(sorted((str(k), v) for k, v in r.items())) for r in table.values()}
+    rep.check("C20.R2", "orderings-agree", len(rows) <= 1 and bool(table), "all ordering implementations give the same answer in every cell",
+              "the ordering implementations disagree: %s" % {n: {"%s/%s" % k: ORD_NAMES.get(v) for k, v in r.items()} for n, r in table.items()})
+    rep.exhaustive = True
     neq = 0
     for b in impls.get("PartialEq", []):
         if is_derived(b) or b.name != "eq":
             continue
         rep.fn(b.key)
+        it = env.ctx.interp(b.key)
+        I.CUR_BODY[0] = b
+        ops = operand_values(it, b)
+        if len(ops) != 2:
+            continue
         neq += 1
-        rets = [t[1] for p in grammar.reads(env, b.key).paths for t in p if t[0] == "returns"]
-        ok = len(rets) == 1 and re.match(r"^\(load\(\*?load\((self|other)\)(\.value)?\) Eq load\(\*?load\((self|other)\)(\.value)?\)\)$", rets[0]) is not None \
-            and rets[0].count(".value") == 1 and "self" in rets[0] and "other" in rets[0]
-        rep.check("C20.R2", "%s|eq" % b.pretty, ok, "compares the timestamp's value with the integer", "%s returns %s" % (b.pretty, rets), b.span)
+        a, c = ops
+        bad = []
+        for rel in ("lt", "eq", "gt"):
+            vals, trunc = results_in_cell(env, b, cell_state(a, c, rel, "near") if rel != "eq" else cell_state(a, c, "eq", None))
+            got = set()
+            for v in vals:
+                cv = const_val(unwrap(v))
+                got.add(None if cv is None else (1 if cv else 0))
+            if trunc or got != {1 if rel == "eq" else 0}:
+                bad.append("for a %s b it returns %s" % ({"lt": "<", "eq": "=", "gt": ">"}[rel], sorted(str(g) for g in got)))
+        rep.check("C20.R2", "%s|eq" % b.pretty, not bad, "true exactly when the two values are equal", "%s: %s" % (b.pretty, "; ".join(bad)), b.span)
     rep.floor("C20.R2.eq", "PartialEq implementations between RtmpTimestamp and u32", neq, 2)
-    # ------------------------------------------------------------------ R3
-    paths = grammar.reads(env, cmpf.key).paths
-    nat, rev = [], []
-    for p in paths:
-        r = [t[1] for t in p if t[0] == "returns"]
-        iv = chunk.interval_from_decisions(p, "Sub")
-        if r and re.match(r"^cmp\(load\(\*?load\(value1\)\),load\(\*?load\(value2\)\)\)$", r[-1]):
-            nat.append(iv)
-        elif r and re.match(r"^cmp\(load\(\*?load\(value2\)\),load\(\*?load\(value1\)\)\)$", r[-1]):
-            rev.append(iv)
-        else:
-            nat.append(("?", r))
-    rep.check("C20.R3", "threshold-partition", nat == [(0, 2147483647)] and rev == [(2147483648, 4294967295)],
-              "natural order for |a-b| in [0, 2^31-1], reversed for [2^31, 2^32-1]",
-              "compare uses natural order when the absolute difference is in %s and reversed order when in %s; the wrap-around clock needs [0, 2147483647] / [2147483648, 4294967295]" % (nat, rev), cmpf.span)
-    # the quantity tested is max - min of the two values
-    descs = {t[1] for p in paths for t in p if t[0] == "when"}
-    okd = bool(descs) and all(re.match(r"^\(\(max\(load\(\*?load\(value[12]\)\),load\(\*?load\(value[12]\)\)\) Sub min\(load\(\*?load\(value[12]\)\),load\(\*?load\(value[12]\)\)\)\) (Le|Lt|Gt|Ge) \d+\)$", d) for d in descs)
-    rep.check("C20.R3", "difference-is-max-minus-min", okd, "the tested quantity is max(a,b) - min(a,b)", "compare tests %s" % sorted(descs), cmpf.span)
